@@ -378,15 +378,19 @@ def find_check_cache(context):
 
 @make.post_rules_hook
 def make_find_dirs(build_inputs, buildfile, env):
+    regen_files = regenerate.RegenerateFiles.make(build_inputs, env)
     if build_inputs['find_dirs']:
-        write_depfile(env, Path(depfile_name), make.filepath,
+        # If regeneration has several outputs, the Makefile itself is only an
+        # alias for the stamp file whose rule re-runs bfg9000; the directories
+        # must be dependencies of that rule to have any effect.
+        write_depfile(env, Path(depfile_name),
+                      make.multitarget_primary(regen_files.outputs),
                       build_inputs['find_dirs'], makeify=True)
         buildfile.include(depfile_name)
 
-    FindCacheFile(
-        regenerate.RegenerateFiles.make(build_inputs, env),
-        build_inputs['find_cache']
-    ).save(env.builddir.string())
+    FindCacheFile(regen_files, build_inputs['find_cache']).save(
+        env.builddir.string()
+    )
 
 
 @ninja.post_rules_hook
